@@ -85,7 +85,12 @@ def gen_cases(rng, tier):
         cases.append({"is_fd": is_fd, "verbose": is_fd, "sources": [{"arg": "full.dat", "content": {"rand": 11, "len": FULL}}, {"eos": "--eos"},
                                                                    {"arg": "small.txt", "content": {"pat": "42", "len": 300}}, {"arg": "most.bin", "content": {"rand": 12, "len": FULL - 2040}},
                                                                    {"arg": "edge.bin", "content": {"rand": 13, "len": FULL - 2039}}]})
-    return cases, {"random": n, "fixed": 3}
+    # beyond a full side: refused everywhere, first on an empty image, after a small file, and followed by files that fit
+    for is_fd in (True, False):
+        cases.append({"is_fd": is_fd, "verbose": not is_fd, "sources": [{"arg": "small.txt", "content": {"pat": "41", "len": 11}}, {"arg": "over.dat", "content": {"rand": 14, "len": FULL + 1}},
+                                                                       {"arg": "tail.bin", "content": {"pat": "42", "len": 300}}]})
+    cases.append({"is_fd": rng.random() < 0.5, "verbose": False, "sources": [{"arg": "over2.bin", "content": {"rand": 15, "len": rng.choice([FULL + 1, FULL + 255, FULL + 2040, 400000])}}]})
+    return cases, {"random": n, "fixed": 6}
 
 
 def flow(case, ctx, cd):
